@@ -30,9 +30,9 @@ var Packages = []string{".", "adapter", "engine.io", "engine.io/transport", "eng
 
 type Instrumenter struct {
 	Repo    string
-	Out     string            // directory for rewritten files
+	Out     string                                        // directory for rewritten files
 	Mutate  func(path string, src []byte) ([]byte, error) // optional source substitution before rewriting
-	Overlay map[string]string // result: original path -> replacement
+	Overlay map[string]string                             // result: original path -> replacement
 	exports map[string]string
 	fset    *token.FileSet
 	Log     io.Writer
@@ -183,19 +183,19 @@ func buildTagsOK(src []byte) bool {
 }
 
 type rw struct {
-	in      *Instrumenter
-	info    *types.Info
-	fset    *token.FileSet
-	file    string
-	changed bool
-	fn      string
-	ord     map[string]int
-	err     error
+	in       *Instrumenter
+	info     *types.Info
+	fset     *token.FileSet
+	file     string
+	changed  bool
+	fn       string
+	ord      map[string]int
+	err      error
 	usesTime bool
 }
 
 func sel(x, s string) ast.Expr { return &ast.SelectorExpr{X: ast.NewIdent(x), Sel: ast.NewIdent(s)} }
-func str(s string) ast.Expr   { return &ast.BasicLit{Kind: token.STRING, Value: strconv.Quote(s)} }
+func str(s string) ast.Expr    { return &ast.BasicLit{Kind: token.STRING, Value: strconv.Quote(s)} }
 
 func (r *rw) fail(pos token.Pos, format string, a ...any) {
 	if r.err == nil {
